@@ -18,7 +18,7 @@ ip = os.path.join(V, 'lean/BddVerif/Props/index/%s.json' % pid)
 e = json.load(open(ip))
 for t in thms:
     if t not in e['theorems']: e['theorems'].append(t)
-for tag, gf in (('AlgoEq', 'Algo.lean'), ('AlgoEq2', 'Algo2.lean'), ('AlgoEq3', 'Algo2.lean'), ('AlgoEq3', 'Algo3.lean')):
+for tag, gf in (('AlgoEq', 'Algo.lean'), ('AlgoEq2', 'Algo2.lean'), ('AlgoEq3', 'Algo2.lean'), ('AlgoEq3', 'Algo3.lean'), ('AlgoEq4', 'Algo3.lean'), ('AlgoEq4', 'Algo4.lean')):
     if tag in mod and gf not in e.get('gen_files', []): e.setdefault('gen_files', []).append(gf)
 json.dump(e, open(ip, 'w'), indent=1)
 print(pid, len(e['theorems']), 'theorems')
